@@ -15,7 +15,10 @@ if _here not in sys.path:
 # every checks/reg_*.py contributes a CHECKS dict (and optionally NOT_APPLICABLE: {pid: reason})
 CHECKS = {}
 NOT_APPLICABLE = {}
+_only = os.environ.get("VERIF_REG_ONLY")      # comma-separated fragment names (used while families are being built)
 for _f in sorted(glob.glob(os.path.join(_here, "reg_*.py"))):
+    if _only and os.path.basename(_f)[4:-3] not in _only.split(","):
+        continue
     _m = importlib.import_module(os.path.basename(_f)[:-3])
     CHECKS.update(getattr(_m, "CHECKS", {}))
     NOT_APPLICABLE.update(getattr(_m, "NOT_APPLICABLE", {}))
